@@ -712,7 +712,15 @@ impl World {
                 }
             }
             // the owner funds the factory with one unit of each denom (required for registration)
-            let coins: Vec<Coin> = natives.iter().map(|d| Coin { denom: d.clone(), amount: Uint128::new(10) }).collect();
+            // (the owner also holds upper-case look-alikes of every denom: bank denoms are case sensitive, so
+            // "UA" is a different coin than "ua"; C17 registers such look-alikes)
+            let mut coins: Vec<Coin> = natives.iter().map(|d| Coin { denom: d.clone(), amount: Uint128::new(10) }).collect();
+            for d in natives.iter() {
+                let up = d.to_uppercase();
+                if up != *d && !natives.contains(&up) && !coins.iter().any(|c| c.denom == up) {
+                    coins.push(Coin { denom: up, amount: Uint128::new(10) });
+                }
+            }
             if !coins.is_empty() {
                 router.bank.init_balance(storage, &Addr::unchecked(OWNER), coins).unwrap();
             }
